@@ -12,7 +12,7 @@ import (
 
 var (
 	addrHostsPlain = []string{"example.com", "git.example.org", "sub.example.co.uk", "example.com:8443", "127.0.0.1", "example.com:443"}
-	addrHostsOdd   = []string{"EXAMPLE.com", "Example.COM:8080", "テラフォーム.example.com", "[::1]", "[2001:db8::1]:8443", "bücher.example", "a-b.example.com", "localhost"}
+	addrHostsOdd   = []string{"EXAMPLE.com", "Example.COM:8080", "テラフォーム.example.com", "[::1]", "[2001:db8::1]:8443", "[fe80::1%25en0]", "[fe80::1%25é]", "[::1%25テ]:8080", "bücher.example", "a-b.example.com", "localhost"}
 	addrGitPaths   = []string{"/org/repo.git", "/org/repo", "/a/b/c.git", "/r.git", "/team/proj/_git/repo", "/~user/repo.git"}
 	addrGitPathOdd = []string{"/a%20b.git", "/a%2Fb.git", "/módulo.git", "/A/B.GIT", "/x+y.git", "/a;b.git", "/a:b.git", "/a@b.git", "/a=b&c.git", "/a!$'()*,.git", "/%7Euser/r.git"}
 	addrTgzPaths   = []string{"/foo.tar.gz", "/foo.tgz", "/d/e/f.tgz", "/v1.2.3/mod.tar.gz"}
